@@ -334,7 +334,7 @@ def _alarm(signum, frame):  # noqa: ARG001
 def run_cases(ck: Ck, mod, descs):
     import signal
 
-    limit = int(getattr(mod, "CASE_WATCHDOG_S", 300))
+    limit = int(getattr(mod, "CASE_WATCHDOG_S", 1800))  # (generous: it only guards against a hang; 300 s was met by slow-but-finishing cases on a loaded machine)
     can_alarm = hasattr(signal, "SIGALRM")
     if can_alarm:
         signal.signal(signal.SIGALRM, _alarm)
